@@ -391,3 +391,50 @@ Proof.
   specialize (H (mk_wctx 9 2 true true []) [(2, [1])] [mk_signer 5 SCustomGroups [] [1] []] 5 eq_refl).
   apply witness_specb_iff in H. vm_compute in H. discriminate.
 Qed.
+
+(* ---- independence of other executions ----
+   A node runs several executions concurrently, each with its own interop context.  The model's check is a function
+   of (signers, the execution's OWN context).  To say what that excludes, [eval_rules_at] evaluates the rule list with
+   the match context consulted for the i-th rule supplied by [ctx_at]: a fresh per-check context is the constant
+   function; a match context kept in a shared mutable place may have been rebound by another execution between two
+   rules. *)
+Fixpoint eval_rules_at (ctx_at : nat -> wctx) (i : nat) (rules : list rule) : res :=
+  match rules with
+  | [] => Ok false
+  | r :: t =>
+      match cmatch (ctx_at i) (r_cond r) with
+      | Err => Err
+      | Ok true => Ok (is_allow (r_action r))
+      | Ok false => eval_rules_at ctx_at (S i) t
+      end
+  end.
+
+Theorem independent_of_other_executions x ctx_at rules i :
+  (forall j, ctx_at j = x) -> eval_rules_at ctx_at i rules = eval_rules x rules.
+Proof.
+  intros H. revert i. induction rules as [|r t IH]; intros i; simpl; auto.
+  rewrite H. destruct (cmatch x (r_cond r)) as [[|]|]; auto.
+Qed.
+
+(* whatever another execution y does (it only ever evaluates over ITS context), the pair of answers is the pair of
+   sequential answers, in either order *)
+Corollary two_executions_sequential x y sx sy hx hy cx cy :
+  (forall j, cx j = x) -> (forall j, cy j = y) ->
+  (eval_rules_at cx 0 sx, eval_rules_at cy 0 sy, check_hashed_witness x hx hy) =
+  (eval_rules x sx, eval_rules y sy, check_hashed_witness x hx hy).
+Proof. intros Hx Hy. rewrite (independent_of_other_executions x), (independent_of_other_executions y); auto. Qed.
+
+(* a shared mutable match context does not have the property: rebinding it to another execution's context between
+   two rules changes the answer *)
+Definition shared_match_context_statement : Prop :=
+  forall ctx_at x rules, ctx_at 0%nat = x -> eval_rules_at ctx_at 0 rules = eval_rules x rules.
+
+Theorem shared_match_context_refuted : ~ shared_match_context_statement.
+Proof.
+  intros H.
+  pose (x := mk_wctx 9 1 true true [(1, [1])]).
+  pose (y := mk_wctx 9 1 true true [(1, [2])]).
+  specialize (H (fun i => match i with O => x | _ => y end) x
+                [mk_rule Deny (CGroup 2); mk_rule Allow (CGroup 1)] eq_refl).
+  vm_compute in H. discriminate.
+Qed.
